@@ -50,6 +50,9 @@ def independent(g, c):
             return 'node %s shared' % n.full_name
         if has_identity(g.nodes, m):
             return 'copy lists an original node'
+        for attr in ('type', 'name', 'id', 'defense_status', 'existence_status', 'is_viable', 'is_necessary', 'mitre_info', 'ttc', 'tags', 'extras'):
+            if getattr(n, attr) != getattr(m, attr):
+                return '%s of node %s differs in the copy (%r vs %r)' % (attr, n.full_name, getattr(m, attr), getattr(n, attr))
         for attr in ('children', 'parents', 'compromised_by', 'tags', 'extras'):
             if getattr(n, attr) is getattr(m, attr):
                 return '%s of node %s shared' % (attr, n.full_name)
@@ -146,8 +149,9 @@ def _build(cube, kw):
         if ('tt%d' % i) in kw:
             ttc = copy.deepcopy(pick(kw['tt%d' % i], TTCS))
         nodes[i].tags, nodes[i].extras, nodes[i].ttc = tags, extras, ttc
+        nodes[i].mitre_info = 'T10%d' % i
         if ('v%d' % i) in kw:
-            nodes[i].is_viable = kw['v%d' % i]
+            nodes[i].is_viable = bool(kw['v%d' % i])
         if nodes[i].type == 'defense':
             nodes[i].defense_status = 0.5
     for i in range(n):
